@@ -177,9 +177,9 @@ func (e ProtoEngine) Shrink(ci any) []any {
 }
 
 var paceTampers = []string{"wrong-password", "nonce-flip", "map-key-other-point", "map-key-reflect", "map-key-invalid", "map-key-infinity", "map-key-omit",
-	"ka-key-other-point", "ka-key-reflect", "ka-reflect-with-token", "ka-key-invalid", "ka-key-omit", "token-flip", "token-omit", "token-truncated", "cam-data-flip", "cam-data-omit", "cam-data-reblock"}
+	"ka-key-other-point", "ka-key-reflect", "ka-reflect-with-token", "ka-key-invalid", "ka-key-omit", "token-flip", "token-omit", "token-truncated", "cam-data-flip", "cam-data-omit", "cam-data-reblock", "cam-data-negated", "cam-data-plus-one", "cam-data-double"}
 
-var bacTampers = []string{"bitflip", "other-mrz-keys", "replay-other-run", "wrong-rnd-ifd-echo", "wrong-rnd-ic-echo", "swapped-echoes", "short-39", "long-41", "zero", "status-6300", "wrong-password"}
+var bacTampers = []string{"bitflip", "other-mrz-keys", "replay-other-run", "wrong-rnd-ifd-echo", "wrong-rnd-ic-echo", "swapped-echoes", "short-39", "long-41", "zero", "status-6300", "wrong-password", "reflect-command", "permuted-fields"}
 
 var caImpostors = []string{"own-key", "no-switch", "plain-9000", "replay-transcript", "own-key-no-switch", "empty-mac-probe", "short-mac-probe"}
 
@@ -502,6 +502,14 @@ func runPace(c ProtoCase, out *core.Outcome) {
 	if c.Mode == "wrong-password" {
 		pass = wrongPassword(w)
 	}
+	switch c.Mode {
+	case "cam-data-negated":
+		d.chip.Ov.CAMTweak = "negate"
+	case "cam-data-plus-one":
+		d.chip.Ov.CAMTweak = "plus-one"
+	case "cam-data-double":
+		d.chip.Ov.CAMTweak = "double"
+	}
 	tampered := false
 	d.link.RespHook = func(k int, cmd, resp []byte) []byte {
 		outer, perr := chip.ParseCAPDU(cmd)
@@ -568,6 +576,12 @@ func runPace(c ProtoCase, out *core.Outcome) {
 			return edit(0x86, nil, true)
 		case step == 4 && c.Mode == "token-truncated":
 			return edit(0x86, func(v []byte) []byte { return v[:len(v)-1] }, false)
+		case step == 4 && (c.Mode == "cam-data-negated" || c.Mode == "cam-data-plus-one" || c.Mode == "cam-data-double"):
+			// altered inside the encryption (the chip model itself encrypts another scalar, see Overrides.CAMTweak)
+			if _, ok := editGA(resp, 0x8A, func(v []byte) []byte { return v }, false); ok {
+				tampered = true
+			}
+			return resp
 		case step == 4 && c.Mode == "cam-data-flip":
 			return edit(0x8A, flip, false)
 		case step == 4 && c.Mode == "cam-data-omit":
@@ -771,6 +785,25 @@ func runBac(c ProtoCase, out *core.Outcome) {
 				return resp
 			}
 			return mk(append(append(bytes.Clone(rndIFD), rndIC...), kic...), kenc, kmac)
+		case "reflect-command":
+			// a chip without any key material echoes the terminal's own cryptogram E.IFD || M.IFD
+			return append(bytes.Clone(outer.Data[:40]), 0x90, 0x00)
+		case "permuted-fields":
+			// an adversary knowing the keys: correct MAC, the three fields in one of the five wrong orders / K.IFD reflected as K.IC
+			kifd := s[16:32]
+			perms := [][]byte{
+				append(append(bytes.Clone(rndIFD), rndIC...), kifd...), // = the terminal's own plaintext
+				append(append(bytes.Clone(rndIC), rndIC...), kic...),
+				append(append(bytes.Clone(rndIFD), rndIFD...), kic...),
+				append(append(bytes.Clone(kic[:8]), rndIFD...), append(bytes.Clone(rndIC), kic[8:]...)...),
+				append(append(bytes.Clone(kic), rndIC...), rndIFD...),
+			}
+			pl := perms[c.A%len(perms)]
+			if bytes.Equal(pl[:16], append(bytes.Clone(rndIC), rndIFD...)) {
+				tampered = false
+				return resp
+			}
+			return mk(pl, kenc, kmac)
 		case "short-39":
 			return append(g[:39], 0x90, 0x00)
 		case "long-41":
@@ -802,6 +835,9 @@ func runBac(c ProtoCase, out *core.Outcome) {
 	if strings.HasPrefix(c.Mode, "genuine") {
 		if len(w.Holder.DocNo) > 9 {
 			out.Probe("extended_document_number")
+		}
+		if strings.Contains(w.Holder.DocNo, "<") {
+			out.Probe("document_number_with_inner_filler")
 		}
 		if len(w.Holder.DocNo) < 9 {
 			out.Probe("document_number_with_fillers")
